@@ -15,7 +15,7 @@ demo_patched=-1; tests="not run"; check_rc=-1; check_sites=""
 if $applies; then
   /venv/bin/python -W ignore "$SD/demo.py" >/dev/null 2>&1; demo_patched=$?
   tests=$(/venv/bin/python -m pytest -q -p no:cacheprovider --timeout=900 pint 2>&1 | tail -1)
-  res=$(VERIF_REPO="$WT" /verif/check "$ID" --tier quick 2>&1)
+  res=$(VERIF_OUT="$WT/.verif_out" VERIF_REPO="$WT" /verif/check "$ID" --tier quick 2>&1)
   check_rc=$?
   check_sites=$(echo "$res" | grep "site=" | grep -v KNOWN | head -4 | sed 's/occurrences.*//' | tr '\n' ';' | tr '"' "'")
 fi
